@@ -27,6 +27,7 @@ def transition(history, op, want_c06=True):
     """Run one transition on a fresh world. Returns a record dict."""
     w, _ = replay(history)
     before = w.snap()
+    rc_before = w.refcounts()
     out = w.apply(op)
     after = w.snap()
     rec = {"op": op, "out": out}
@@ -38,6 +39,10 @@ def transition(history, op, want_c06=True):
         d = diff(before, {k: v for k, v in after.items() if k in before})
         missing = [k for k in before if k not in after]
         rec["c06"] = d + [(k, "<presence>", True, False) for k in missing]
+        rc_after = w.refcounts()
+        for k in rc_before:
+            if rc_before[k] != rc_after.get(k):
+                rec["c06"].append((k.split(".")[0], "membership_ref_count:" + k.split(".")[1], rc_before[k], rc_after.get(k)))
     else:
         rec["c06"] = []
     rec["hash"] = _hash((tuple(sorted(after.items())), w.hidden()))
